@@ -206,6 +206,32 @@ def reader_tokens(prog, ty):
     return order, sep, filt, ptype, fmap, looped, lit
 
 
+def count_guards(fn):
+    """error exits of `fn` decided by nothing but the number of collected elements: `if <local>.len() <relop> <const>
+    { return Err }` outside every loop — [(text of the condition, node)]"""
+    out = []
+    in_loop = set()
+    for n in core.walk_fn(fn, into_closures=False):
+        if n.get("k") == "Loop" or core.as_for(n) is not None:
+            for y in core.walk(n):
+                in_loop.add(id(y))
+    for n in core.walk_fn(fn, into_closures=False):
+        if n.get("k") != "If" or id(n) in in_loop:
+            continue
+        cnd = core.strip(n["c"])
+        if cnd.get("k") != "Binary" or cnd.get("op") not in ("<", "<=", ">", ">=", "==", "!="):
+            continue
+        sides = [core.strip(cnd["l"]), core.strip(cnd["r"])]
+        lens = [x for x in sides if x.get("k") == "MethodCall" and x["m"] in ("len", "count")]
+        lits = [x for x in sides if core.lit_value(x) is not None]
+        if len(lens) != 1 or len(lits) != 1:
+            continue
+        if not any(y.get("k") == "Ret" and "Err" in core.fingerprint(y.get("e", {}), 3) for y in core.walk(n["t"])):
+            continue
+        out.append((f"{core.fingerprint(lens[0]['recv'], 2)}.len() {cnd['op']} {core.lit_value(lits[0])}" if sides[0] is lens[0] else f"{core.lit_value(lits[0])} {cnd['op']} len", n))
+    return out
+
+
 def _pat_lids(p):
     out = []
     stack = [p]
@@ -283,3 +309,25 @@ def run(c, prog, R="C02.tok"):
             c.violation(R, f"{kind}|{ty}", f"XmlType for {core.short(ty)}: {msg}", core.loc(lit), instance=inst)
         else:
             c.ok(R, inst)
+
+
+def rule_count_domain(c, prog, R):
+    """The number of keypoints: a count the writer emits without complaint and the reader refuses is a value that does
+    not come back.  Not part of C02 (whose quantifier starts at two keypoints); it is part of C06, where the binary
+    sibling accepts every count."""
+    c.rule(R, "token-stream XmlType impls that loop over a collection: an error exit of the reader decided by nothing but the number of collected elements has a counterpart in the writer — otherwise the writer produces text its own reader refuses, for a value rbx_binary round-trips")
+    n = 0
+    for ty in token_types(prog):
+        rf = prog.impl_fn(XT, ty, "read_xml")
+        wf = prog.impl_fn(XT, ty, "write_xml")
+        if not any(x.get("k") == "Loop" or core.as_for(x) is not None for x in core.walk_fn(rf, into_closures=False)):
+            continue
+        n += 1
+        inst = f"count:{ty}"
+        rg = count_guards(rf)
+        wg = count_guards(wf)
+        if rg and not wg:
+            c.violation(R, f"count-domain|{ty}", f"XmlType for {core.short(ty)}: the reader refuses the text when `{rg[0][0]}`, the writer writes any number of keypoints without complaint: a value with that few keypoints is written (and round-trips through rbx_binary, which has no minimum) but the XML it produced is rejected, failing the whole file", core.loc(rg[0][1]), instance=inst)
+        else:
+            c.ok(R, inst)
+    c.floor(R, n, 1, "looping token-stream XmlType impls")
